@@ -15,7 +15,9 @@ key not in `ignored_terms` gets `bias * scalar`), `normalize` (`lmin/lmax/pmin/p
 in the ranges, `inv_scalar = max(lmin/lo, lmax/hi, pmin/plo, pmax/phi)`; `ZeroDivisionError` when a range bound is 0;
 no change when `inv_scalar == 0`; else `scale(1/inv_scalar)`).  `update` / `setdefault` are `MutableMapping` mixins over
 `__setitem__` / `__contains__`: the harness expands them.  `relabel_variables(mapping, inplace=True)`: the validation of `iter_safe_relabels` and the
-in-place loop for a mapping without label conflicts (a swap / cycle goes through `resolve_label_conflict`: not modelled). -/
+in-place loop for a mapping without label conflicts (`PolyOp.relabel`), and for a mapping WITH a conflict (swap / cycle) the two safe steps of `resolve_label_conflict`
+with its integer counter (`PolyOp.relabelVia`; the harness sends the op that the code's own test `any(v in new_labels for v in old_labels)` selects,
+the other op answers `conflictNotModelled`). -/
 
 namespace Red
 open Pen
@@ -90,6 +92,39 @@ def safeRelabel (m : List (Label × Label)) (existing : List Label) : Except Pol
   else if olds.any (fun v => news.contains v) then .error .conflictNotModelled
   else .ok m
 
+/-- `lbl = next(counter); while lbl in new_labels or lbl in old_labels or lbl in existing: lbl = next(counter)`
+    (`fuel` = number of labels to avoid + 1: one of that many consecutive integers is free) -/
+def nextFreeLabel (avoid : List Label) : Nat → Nat → Nat
+  | 0, c => c
+  | fuel + 1, c => if avoid.contains (.int c) then nextFreeLabel avoid fuel (c + 1) else c
+
+/-- `resolve_label_conflict(mapping, existing, old_labels, new_labels)`: the two dicts `old_to_intermediate`, `intermediate_to_new`
+    (insertion order), the counter starting at `2 * len(mapping)` -/
+def resolveConflict (m : List (Label × Label)) (existing : List Label) : List (Label × Label) × List (Label × Label) :=
+  let news := m.map (·.2)
+  let olds := m.map (·.1)
+  let avoid := news ++ olds ++ existing
+  let r := m.foldl (fun (st : Nat × List (Label × Label) × List (Label × Label)) p =>
+      if p.1 == p.2 then st
+      else if news.contains p.1 || olds.contains p.2 then
+        let lbl := nextFreeLabel avoid (avoid.length + 1) st.1
+        (lbl + 1, st.2.1 ++ [(p.1, .int lbl)], st.2.2 ++ [(.int lbl, p.2)])
+      else (st.1, st.2.1 ++ [(p.1, p.2)], st.2.2)) (2 * m.length, [], [])
+  (r.2.1, r.2.2)
+
+/-- `relabel_variables(mapping)` when an old label is also a new label (swap, cycle, chain): `iter_safe_relabels` yields the two
+    dicts of `resolve_label_conflict`, the in-place loop runs once for each (`existing = self.variables` is read once, before) -/
+def relabelConflict (m : List (Label × Label)) (s : PolyState) : Except PolyErr PolyState :=
+  let news := m.map (·.2)
+  let olds := m.map (·.1)
+  let existing := stateVars s
+  if (dedup news).length < m.length then .error .valueError
+  else if news.any (fun v => existing.contains v && !olds.contains v) then .error .valueError
+  else if olds.any (fun v => news.contains v) then
+    let r := resolveConflict m existing
+    .ok (relabelStep r.2 (relabelStep r.1 s))
+  else .error .conflictNotModelled          -- no conflict: that is `PolyOp.relabel`
+
 inductive PolyOp
   | setItem (t : List Label) (b : Rat)
   | addItem (t : List Label) (b : Rat)
@@ -98,6 +133,7 @@ inductive PolyOp
   | scale (c : Rat) (ignored : List (List Label))
   | normalize (rg : Ranges) (ignored : List (List Label))
   | relabel (m : List (Label × Label))     -- `relabel_variables(mapping)` (a dict: different keys), in place
+  | relabelVia (m : List (Label × Label))  -- the same call when the mapping has a label conflict (two safe steps)
 
 def applyOp (s : PolyState) : PolyOp → Except PolyErr PolyState
   | .setItem t b => .ok (objSet s (asKey t) b)
@@ -123,6 +159,7 @@ def applyOp (s : PolyState) : PolyOp → Except PolyErr PolyState
     match safeRelabel m (stateVars s) with
     | .ok sub => .ok (relabelStep sub s)
     | .error e => .error e
+  | .relabelVia m => relabelConflict m s
 
 def runOps (s : PolyState) : List PolyOp → Except PolyErr PolyState
   | [] => .ok s
